@@ -134,10 +134,35 @@ def _term(rng, depth, in_tail=False):
     return t
 
 
+def _confusable(rng):
+    """one literal holding two DIFFERENT terms whose unquoted printed forms coincide: f(a,b) next to f('a,b'), g(X) next to g('X'),
+    [p,q] next to ['p,q'], h(f(x)) next to h('f(x)') - each must keep its own meaning"""
+    a, b = rng.sample(["a", "b", "p", "q", "x1"], 2)
+    sep = rng.choice([",", ", "])
+    k = rng.randrange(5)
+    if k == 0:
+        t1, t2 = ("fun", "f", (("atom", a), ("atom", b))), ("fun", "f", (("atom", a + sep + b),))
+    elif k == 1:
+        v = rng.choice(_VARNAMES)
+        t1, t2 = ("fun", "g", (("var", v),)), ("fun", "g", (("atom", v),))
+    elif k == 2:
+        t1 = ("fun", ".", (("atom", a), ("fun", ".", (("atom", b), NIL))))
+        t2 = ("fun", ".", (("atom", a + sep + b), NIL))
+    elif k == 3:
+        t1, t2 = ("fun", "h", (("fun", "f", (("atom", a),)),)), ("fun", "h", (("atom", "f(%s)" % a),))
+    else:
+        t1, t2 = ("fun", "f", (("int", 12), ("atom", a))), ("fun", "f", (("atom", "12" + sep + a),))
+    if rng.random() < 0.5:
+        t1, t2 = t2, t1
+    return ("fun", "c2", (t1, t2))
+
+
 def make_scenario(seed, i):
     rng = random.Random(seed * 1000003 + i * 104729 + 16)
     depth = rng.choice([0, 1, 1, 2, 2, 3, 4])
     t = _term(rng, depth)
+    if i % 9 == 4:
+        t = _confusable(rng)
     r = rng.random()
     style = {"quote_all": r < 0.15, "zero_pad": 0.15 <= r < 0.25, "spaces": 0.25 <= r < 0.35}
     return untup({"term": t, "style": style, "after_clear": rng.random() < 0.15, "bseed": rng.randint(0, 10 ** 9)})
